@@ -68,13 +68,15 @@ class TimeDeltaField(FieldType):
         raise exceptions.UnitError(f"Can not change the unit of a time delta field")
 
     def _prepend_empty(self, num_obs, memo):
-        empty = TimeDelta([timedelta(seconds=0)] * num_obs, scale="utc", fmt="timedelta")
+        # Empty values in the time scale of the field itself, they are not converted when they are inserted
+        empty = TimeDelta([timedelta(seconds=0)] * num_obs, scale=self.data.scale, fmt="timedelta")
         empty_id = id(empty)
         self.data = TimeDeltaArray.insert(self.data, 0, empty, memo)
         memo.pop(empty_id, None)
 
     def _append_empty(self, num_obs, memo):
-        empty = TimeDelta([timedelta(seconds=0)] * num_obs, scale="utc", fmt="timedelta")
+        # Empty values in the time scale of the field itself, they are not converted when they are inserted
+        empty = TimeDelta([timedelta(seconds=0)] * num_obs, scale=self.data.scale, fmt="timedelta")
         empty_id = id(empty)
         self.data = TimeDeltaArray.insert(self.data, self.num_obs, empty, memo)
         memo.pop(empty_id, None)
